@@ -31,3 +31,28 @@ pub(crate) fn closing(fd: i32) {
         });
     }
 }
+
+/// `waitpid(2)`: on the virtual pool a blocking job runs inline on the only thread there is, so a wait
+/// for a child that has not exited yet cannot simply block: while it "blocks", the environment goes on
+/// (the actions that eventually make the child exit are environment actions), and time passes up to
+/// each of them. With nothing scheduled any more the wait would never return, which is reported.
+#[unsafe(no_mangle)]
+pub unsafe extern "C" fn waitpid(pid: libc::pid_t, status: *mut libc::c_int, options: libc::c_int) -> libc::pid_t {
+    let real = |opts: libc::c_int| -> libc::pid_t {
+        // wait4(pid, status, options, NULL)
+        unsafe { libc::syscall(libc::SYS_wait4, pid as libc::c_long, status, opts as libc::c_long, 0 as libc::c_long) as libc::pid_t }
+    };
+    if !crate::clock_is_simulated() || options & libc::WNOHANG != 0 {
+        return real(options);
+    }
+    loop {
+        let r = real(options | libc::WNOHANG);
+        if r != 0 {
+            return r;
+        }
+        if !crate::env_step_for_blocked_job() {
+            crate::blocked_forever("waitpid (a blocking-pool job waits for a child that nothing will ever make exit)");
+            return -1;
+        }
+    }
+}
